@@ -20,7 +20,7 @@ def gen_consts(v):
 
 RULE = ('one-channel scripts of chunks/calls/completions: byte streams built from real RpcMessage encodings (requests for '
         'known/unknown/streaming methods, all response kinds for outstanding/unknown/duplicate ids, ignored types), '
-        'zero-size, wrong-version, oversize (1 MB, 1 MB+1, 2^28-1) and undecodable frames, body sizes around the 2 kB '
+        'zero-size, wrong-version, oversize (1 MB, 1 MB+1, 2^28-1, bits 24-27 set with small low bits) and undecodable frames, body sizes around the 2 kB '
         'initial buffer and shrinking/growing sequences, noise, arbitrary/mutated protobuf bodies whose decoding is taken '
         'from the real parser; each stream cut whole / per byte / at every header offset / randomly; calls (ordinary, '
         'streaming, to methods of another service) interleaved at any offset; sequence numbers near 2^32 and forced id '
@@ -44,7 +44,7 @@ TRUSTED = ['modelled rather than verified: RpcChannel.cpp DescriptorReady/ReadHe
            'harness reads private members (m_expected_size, m_current_size, m_buffer_size, m_sequence) via '
            '#define private public; ASan __sanitizer_get_allocated_size for the real block size']
 
-SPEC_KEYS = set(['hazard'] + ['o%d' % i for i in range(4096)])
+SPEC_KEYS = set(['hazard', 'oversize_accepted'] + ['o%d' % i for i in range(4096)])
 PROC_TIMEOUT = 1200
 
 MAXB = 1 << 20
@@ -149,6 +149,9 @@ class Script:
                 self.stream += header(1, size) + body
                 return True
         return False
+    def body_only(self, body, buf):
+        self.T[hx(body)] = '2,9,-,%s' % hx(buf)
+        self.stream += body
     def bad(self, what):
         rng = self.rng
         if what == 'zero':
@@ -288,6 +291,23 @@ def gen_script(rng, kind):
         elif rng.random() < 0.3:
             s.bad(rng.choice(['badver', 'oversize', 'undecodable']))
             s.post += ['m', 'm']        # calls on a closed channel fail at once
+    elif kind == 'bigmask':
+        # right version, length field with bits 24-27 set: above 1 MB whatever the low bits say.  Followed by as
+        # many bytes of valid messages as the low bits announce, so a tree that drops the high bits dispatches them.
+        s.flags.append('X')
+        for _ in range(rng.choice([0, 0, 1, 2])):
+            s.request()
+        hi = rng.choice([1, 1, 2, 8, 15])
+        low = rng.choice([0, 7, 7, 2048, 2048, MAXB - 1, MAXB, MAXB + 1, 0xffffff])
+        s.raw(header(1, (hi << 24) | low))
+        if low == 7:
+            s.body_only(enc_msg(2, 9, None, [0x41]), [0x41])
+        elif low == 2048:
+            s.body_only(enc_msg(2, 9, None, [0x41] * 2041), [0x41] * 2041)
+        elif low:
+            s.raw([0x08, 0x02] + [rng.randrange(256) for _ in range(rng.choice([0, 5, 3000]))])
+        for _ in range(rng.choice([1, 2])):
+            s.request()
     elif kind == 'async':
         # the service answers later and out of order; ids reused while a request is outstanding
         s.flags.append('A')
@@ -408,7 +428,7 @@ def gen_random_bodies(rng, n):
 def gen_cases(rng, tier):
     n = 130 if tier == 'quick' else 8000
     kinds = ['valid', 'zero', 'badver', 'oversize', 'maxexact', 'undecodable', 'noise', 'bufsize',
-             'calls', 'calls', 'wrap', 'dupid', 'jam', 'async', 'async']
+             'calls', 'calls', 'wrap', 'dupid', 'jam', 'async', 'async', 'bigmask']
     for c in gen_random_bodies(rng, 300 if tier == 'quick' else 20000):
         yield c
     for i in range(n):
